@@ -158,4 +158,8 @@ theorem C10_text_references_agree_nested : type_of% @BinDe.valueOfText_bridge_ne
 binary deserializer models on the encoded binary bytes have the outcome `valueOfBin` of the one logical document. -/
 theorem C10_bytes_end_to_end_nested : type_of% @BinDe.C10_bytes_end_to_end_nested := @BinDe.C10_bytes_end_to_end_nested
 
+/-- C10 at BYTE level for EVERY valid text layout of the logical document (blanks, line ends, comments free): the
+canonical rendering of `C10_bytes_end_to_end_nested` is one instance (`BinDe.gDoc_textFs`, `BinDe.valid_fs`). -/
+theorem C10_bytes_end_to_end_any_layout : type_of% @BinDe.C10_bytes_end_to_end_any_layout := @BinDe.C10_bytes_end_to_end_any_layout
+
 end Jomini.Props.C10
